@@ -98,11 +98,13 @@ def r2_per_execution(ctx, mod, sym):
             def f(*a, **k):
                 o = Obj('buffer:' + kind, ctor_args=a, ctor_kwargs=k, text=symexec.marker('text-of-new-buffer'))
                 symexec.method(o, 'getvalue', lambda: o.attrs['text'])
+                symexec.method(o, 'flush', lambda: None)
                 created.append(o)
                 return o
             return f
         older = Obj('buffer:older', text=symexec.marker('text-of-older-buffer'))
         symexec.method(older, 'getvalue', lambda: older.attrs['text'])
+        symexec.method(older, 'flush', lambda: None)
         builtins = {} if print_setting is None else {'print': print_setting}
         me = symexec.self_obj(mod, 'Sandbox', _current_stdout=[older], _current_patches=[],
                               _module_overrides={'__builtins__': builtins, 'os': True, 'turtle': 'mock-turtle'},
